@@ -10,13 +10,18 @@ package locking
 //@   pure
 //@   ensures [probe] pid > 0 ==> (r <==> has(alive, pid))
 //@   ensures [nonpositive_is_not_a_process] pid <= 0 ==> !r
+//@   requires [i_am_alive] has(alive, me) && me > 0
+//@   requires [protocol_content] has(fsIsFile, lockPath) ==> lockCreator > 0 && (select(fsData, lockPath) == "" || select(fsData, lockPath) == itoa(lockCreator))
+//@   ensures [still_alive] has(alive, me) && me > 0
+//@   ensures [protocol_content_kept] has(fsIsFile, lockPath) ==> lockCreator > 0 && (select(fsData, lockPath) == "" || select(fsData, lockPath) == itoa(lockCreator))
 
 // Guarantee side of the protocol: a step of this process removes the lock file only if it is its own or its creator is
 // dead, and leaves the content empty or equal to the creator's PID. Lock returning nil means this process holds the lock.
 //@ func (*WorkspaceLocker).Lock(wl, ctx) (err)
+//@   modifies fsIsFile, fsData, lockCreator, lockInst, alive, hInst, hwritable, hpath, ctxDone
 //@   requires [model] wl.lockFilePath == lockPath && has(fsIsDir, dirOf(lockPath)) && has(alive, me) && me > 0
 //@   requires [protocol_content] has(fsIsFile, lockPath) ==> lockCreator > 0 && (select(fsData, lockPath) == "" || select(fsData, lockPath) == itoa(lockCreator))
-//@   ensures [holds_lock] err == nil ==> has(fsIsFile, lockPath) && lockCreator == me && select(fsData, lockPath) == itoa(me)
+//@   ensures [holds_lock] err == nil ==> has(fsIsFile, lockPath) && lockCreator == me && select(fsData, lockPath) == itoa(me) && has(alive, me)
 //@   before_call Remove#1 [removes_only_own_or_dead_owner] !has(fsIsFile, lockPath) || !has(alive, lockCreator) || lockCreator == me
 //@   before_call Remove#2 [removes_only_dead_owner_unreadable] !has(fsIsFile, lockPath) || !has(alive, lockCreator)
 //@   before_call Remove#3 [removes_only_dead_owner_unparsable] !has(fsIsFile, lockPath) || !has(alive, lockCreator)
@@ -28,7 +33,17 @@ package locking
 //@   invariant [my_pid] stringOf(arr(pidStr), len(pidStr)) == itoa(me)
 
 //@ func (*WorkspaceLocker).Unlock(wl) (err)
+//@   modifies fsIsFile, fsData, lockCreator, lockInst, alive
 //@   requires [model] wl.lockFilePath == lockPath && has(alive, me)
 //@   requires [holder] has(fsIsFile, lockPath) && lockCreator == me
 //@   before_call Remove#1 [removes_own_lock] !has(fsIsFile, lockPath) || !has(alive, lockCreator) || lockCreator == me
 //@   ensures [released] err == nil ==> !has(fsIsFile, lockPath)
+
+// The model's lock path is the path of the locker the command creates; its directory (the workspace cache root) exists and
+// this process is alive while it runs (model facts, assumed here).
+//@ func NewWorkspaceLocker() (r)
+//@   trusted
+//@   pure
+//@   allocates r
+//@   ensures [model] r != nil && r.lockFilePath == lockPath && has(fsIsDir, dirOf(lockPath)) && has(alive, me) && me > 0 &&
+//@        (has(fsIsFile, lockPath) ==> lockCreator > 0 && (select(fsData, lockPath) == "" || select(fsData, lockPath) == itoa(lockCreator)))
